@@ -79,6 +79,8 @@ type Cloud struct {
 	seq      int
 	log      []Call
 	faults   []int
+	opFaults map[string]int      // one-shot fault for the next call of an operation
+	replays  map[string][]string // "<op>/<eni>/<count>" -> answer of an assign whose response was lost
 }
 
 func New(instance, vsw, zone string) *Cloud {
@@ -169,7 +171,10 @@ func (c *Cloud) beginLocked(op, eni string, ips []string) (*Call, int) {
 	c.log = append(c.log, Call{Seq: c.seq, Op: op, ENI: eni, IPs: append([]string(nil), ips...)})
 	call := &c.log[len(c.log)-1]
 	f := FaultNone
-	if call.Mutating() && len(c.faults) > 0 {
+	if k, ok := c.opFaults[op]; ok {
+		f = k
+		delete(c.opFaults, op)
+	} else if call.Mutating() && len(c.faults) > 0 {
 		f = c.faults[0]
 		c.faults = c.faults[1:]
 	}
@@ -407,6 +412,14 @@ func (c *Cloud) AssignPrivateIPAddressV2(ctx context.Context, opts ...aliyunClie
 		return nil, apiErr.ErrNotFound
 	}
 	var out []aliyunClient.IPSet
+	if old := c.replayLocked("AssignV4", id, n, e.V4); old != nil && f == FaultNone {
+		call.Op = "AssignV4(replay)"
+		for _, ip := range old {
+			out = append(out, aliyunClient.IPSet{IPAddress: ip})
+			call.IPs = append(call.IPs, ip)
+		}
+		return out, nil
+	}
 	for i := 0; i < n; i++ {
 		ip := c.newV4Locked()
 		e.V4 = append(e.V4, ip)
@@ -415,7 +428,9 @@ func (c *Cloud) AssignPrivateIPAddressV2(ctx context.Context, opts ...aliyunClie
 	}
 	if f == FaultAfter {
 		// assigned remotely, caller does not learn the addresses: they stay in the
-		// region until the next full sync picks them up
+		// region until the next full sync picks them up, and the answer is replayed
+		// to the next identical request
+		c.rememberLocked("AssignV4", id, call.IPs)
 		return nil, ErrInjected
 	}
 	return out, nil
@@ -441,6 +456,14 @@ func (c *Cloud) AssignIpv6AddressesV2(ctx context.Context, opts ...aliyunClient.
 		return nil, apiErr.ErrNotFound
 	}
 	var out []aliyunClient.IPSet
+	if old := c.replayLocked("AssignV6", id, n, e.V6); old != nil && f == FaultNone {
+		call.Op = "AssignV6(replay)"
+		for _, ip := range old {
+			out = append(out, aliyunClient.IPSet{IPAddress: ip})
+			call.IPs = append(call.IPs, ip)
+		}
+		return out, nil
+	}
 	for i := 0; i < n; i++ {
 		ip := c.newV6Locked()
 		e.V6 = append(e.V6, ip)
@@ -448,6 +471,7 @@ func (c *Cloud) AssignIpv6AddressesV2(ctx context.Context, opts ...aliyunClient.
 		call.IPs = append(call.IPs, ip)
 	}
 	if f == FaultAfter {
+		c.rememberLocked("AssignV6", id, call.IPs)
 		return nil, ErrInjected
 	}
 	return out, nil
@@ -507,4 +531,70 @@ func (c *Cloud) UnAssignIpv6AddressesV2(ctx context.Context, eniID string, ips [
 		return ErrInjected
 	}
 	return nil
+}
+
+// SetOpFault makes the next call of the named operation (e.g. "AssignV4") fail in the
+// given way, whatever the positional plan says.
+func (c *Cloud) SetOpFault(op string, kind int) {
+	c.mu.Lock()
+	defer c.mu.Unlock()
+	if c.opFaults == nil {
+		c.opFaults = map[string]int{}
+	}
+	if kind == FaultNone {
+		delete(c.opFaults, op)
+		return
+	}
+	c.opFaults[op] = kind
+}
+
+// Idempotent replay. The real client derives the ClientToken of an assign request from
+// its arguments (interface, count) and puts the token back when the call fails; if the
+// cloud had executed the request and only the answer was lost, the next request with
+// the same arguments presents the same token and the cloud answers with the result of
+// the first execution: the very same addresses. The stub remembers the answer of every
+// assign that failed after its effect and replays it once to the next assign with the
+// same (operation, interface, count), as long as all those addresses are still on the
+// interface.
+
+func replayKey(op, eni string, n int) string { return fmt.Sprintf("%s/%s/%d", op, eni, n) }
+
+func (c *Cloud) rememberLocked(op, eni string, ips []string) {
+	if c.replays == nil {
+		c.replays = map[string][]string{}
+	}
+	c.replays[replayKey(op, eni, len(ips))] = append([]string(nil), ips...)
+}
+
+func (c *Cloud) replayLocked(op, eni string, n int, have []string) []string {
+	k := replayKey(op, eni, n)
+	ips, ok := c.replays[k]
+	if !ok {
+		return nil
+	}
+	delete(c.replays, k)
+	for _, ip := range ips {
+		found := false
+		for _, h := range have {
+			if h == ip {
+				found = true
+			}
+		}
+		if !found {
+			return nil
+		}
+	}
+	return ips
+}
+
+// ArmReplay installs a lost answer directly (function-level harness): the next assign
+// of `count` addresses of that family on the interface is answered with ips.
+func (c *Cloud) ArmReplay(v6 bool, eni string, ips []string) {
+	c.mu.Lock()
+	defer c.mu.Unlock()
+	op := "AssignV4"
+	if v6 {
+		op = "AssignV6"
+	}
+	c.rememberLocked(op, eni, ips)
 }
